@@ -52,7 +52,8 @@ _KIND = {"rect": "rectangle", "disc": "circle", "poly": "polygon", "group": "gro
 # ---------------------------------------------------------------------------------------------- TLC side
 def _gen_cfgs(ctx):
     stem = "GEN_SpatialIndex3_%s.cfg" if ctx.thorough else "GEN_SpatialIndex_%s.cfg"
-    return [stem % g for g in "abcdef"] + ["GEN_SpatialIndex_shape.cfg"]
+    deep = ["GEN_SpatialIndex_deep_x.cfg", "GEN_SpatialIndex_deep_y.cfg"] if ctx.thorough else []
+    return [stem % g for g in "abcdef"] + deep + ["GEN_SpatialIndex_shape.cfg"]
 
 
 def _run_gen(cfg):
@@ -61,16 +62,24 @@ def _run_gen(cfg):
 
 
 def model_check(ctx):
-    with cf.ThreadPoolExecutor(max_workers=7) as ex:
-        futs = [ex.submit(_run_gen, c) for c in _gen_cfgs(ctx)]          # 7 single-worker JVMs next to the MC runs
-        if ctx.thorough:
-            ctx.mc("MC_SpatialIndex", "MC_SpatialIndex4.cfg", coverage=True, workers=8)       # all families, sequences <= 3
-        else:
-            ctx.mc("MC_SpatialIndex", "MC_SpatialIndex.cfg", coverage=True, workers=4)        # all families, sequences <= 2
-            ctx.mc("MC_SpatialIndex", "MC_SpatialIndex3.cfg", coverage=True, workers=4)       # four families, sequences <= 3
-        for i in range(1, 6):
-            ctx.mc_expect("MC_SpatialIndex", "DEV_SpatialIndex_%d.cfg" % i, "IndexMirrors", workers=2)
-        for f in futs:
+    """All TLC runs of the design-level half and of the generation overlap (one thread per JVM); the results are recorded
+    in the order MC, DEV, GEN."""
+    tag = lambda cfg: "%s_%s" % (PROPERTY, cfg.replace(".cfg", ""))
+    # quick: all families, sequences <= 2 + one family (4 lanelets), sequences <= 3 ; thorough: all families, sequences <= 3
+    mcs = [("MC_SpatialIndex4.cfg", 8)] if ctx.thorough else [("MC_SpatialIndex.cfg", 3), ("MC_SpatialIndex3.cfg", 3)]
+    with cf.ThreadPoolExecutor(max_workers=16) as ex:
+        gen = [ex.submit(_run_gen, c) for c in _gen_cfgs(ctx)]
+        mc = [ex.submit(tlc.model_check, "MC_SpatialIndex", cfg, tag(cfg), coverage=True, workers=w) for cfg, w in mcs]
+        dev = [ex.submit(tlc.expect_violation, "MC_SpatialIndex", "DEV_SpatialIndex_%d.cfg" % i,
+                         tag("DEV_SpatialIndex_%d.cfg" % i), "IndexMirrors" if i < 6 else "QueriesExact", workers=1)
+               for i in range(1, 7)]                                      # 6 = DEV_DiscHalfRadius (the recorded circle finding)
+        for f in mc:
+            ctx._acc(f.result(), "holds")
+        for f in dev:
+            r = f.result()
+            ctx._acc(r, "violated:%s (expected: deviation constant documents a route that forgets to rebuild / mis-maps the "
+                        "index, or the half-radius disc export)" % r["violated"], count=False)
+        for f in gen:
             cfg, cases, r = f.result()
             _GEN[cfg] = cases
             ctx.mc_runs.append({"module": "MC_SpatialIndex", "cfg": cfg, "distinct_states": r["distinct"],
@@ -85,23 +94,29 @@ def cases(ctx):
     if not _GEN:                                                          # (model_check not run: direct use)
         for c in _gen_cfgs(ctx):
             _GEN[c] = _run_gen(c)[1]
-    raw = [c for cfg in _gen_cfgs(ctx) for c in _GEN[cfg]]
+    raw = [c for cfg in _gen_cfgs(ctx) if "_deep_" not in cfg for c in _GEN[cfg]]
     fams = {c["fam"]: c for c in raw if c["kind"] == "family"}
+    raw += [c for cfg in _gen_cfgs(ctx) if "_deep_" in cfg for c in _GEN[cfg]         # thorough: only the sequences of length 3
+            if c["kind"] == "route" and len(c["routes"]) == 3]
     out = []
     for c in raw:
         if c["kind"] == "route":
             f = fams[c["fam"]]
             full = len(c["routes"]) == 1
             shapes = f["shapes"]
-            if not full and not ctx.thorough:                            # longer sequences: one shape per (kind, class)
+            if len(c["routes"]) == 3 or (not full and not ctx.thorough):  # longer sequences: one shape per (kind, class)
                 seen, shapes = set(), []
                 for s in f["shapes"]:
                     if (s["kind"], s["cls"]) not in seen:
                         seen.add((s["kind"], s["cls"]))
                         shapes.append(s)
+            points = f["points"]
+            if not full and not ctx.thorough:                            # ... and every third of the many points outside
+                points = [dict(g, pts=g["pts"][::3]) if g["cls"] == "outside" else g for g in points]
             out.append({"kind": "net", "fam": c["fam"], "lanelets": f["lanelets"], "net": f["net"], "routes": c["routes"],
-                        "cuts": f["cuts"], "points": f["points"], "shapes": shapes, "src": "tlc",
-                        "obstacles": f["obstacles"] if full or ctx.thorough else [], "xpolys": c["polys"]})
+                        "cuts": f["cuts"], "points": points, "shapes": shapes, "src": "tlc",
+                        "obstacles": f["obstacles"] if full or (ctx.thorough and len(c["routes"]) == 2) else [],
+                        "xpolys": c["polys"]})
         elif c["kind"] == "shape":
             for r in _SHAPE_ROUTES:
                 if c["shape"]["k"] == "group" and r.startswith("set_"):
@@ -109,6 +124,19 @@ def cases(ctx):
                 out.append({"kind": "shape", "name": c["name"], "shape": c["shape"], "probes": c["probes"], "sroute": r,
                             "src": "tlc"})
     out += _random_cases(ctx, fams)
+    # how much of the space lies in a declared band (labels of the generator; the bands themselves are declared in the spec)
+    noisy = lambda c: any(r["r"] == "translate_rotate" and r["a"][2] % 4 for r in c["routes"])
+    nets = [c for c in out if c["kind"] == "net"]
+    ctx.extra["bands"] = {
+        "network_cases": len(nets), "network_cases_after_quarter_turn(B2)": sum(1 for c in nets if noisy(c)),
+        "shape_queries": sum(len(c["shapes"]) for c in nets),
+        "disc_queries_in_band(B1)": sum(1 for c in nets for q in c["shapes"] if q["kind"] == "disc" and q["cls"] == "touching"),
+        "rotated_rect_queries_touching(B2)": sum(1 for c in nets for q in c["shapes"] if q["kind"] in ("rectq", "rect345")
+                                                 and q["cls"].startswith("touching")),
+        "shape_probes": sum(len(g["pts"]) for c in out if c["kind"] == "shape" for g in c["probes"]),
+        "shape_probes_in_band(B1,B2)": sum(len(g["pts"]) for c in out if c["kind"] == "shape" for g in c["probes"]
+                                          if g["cls"] == "band" or (g["cls"] in ("boundary", "vertex") and (
+                                              c["sroute"] == "rotate" or (c["shape"]["k"] == "rect" and c["shape"]["rot"] != _ID))))}
     return out
 
 
